@@ -1465,8 +1465,15 @@ pub fn scen_fix(m: &Model, setup: &Setup, solves: usize, out: &mut Out) {
         let mut term = StopAt::never();
         let res = built.solver.satisfy(&mut brancher, &mut term);
         let verdict = match res {
-            SatisfactionResult::Satisfiable(_) => "sat",
-            SatisfactionResult::Unsatisfiable => "unsat",
+            SatisfactionResult::Satisfiable(sol) => {
+                // the state the solver accepted as a solution, judged by the oracle
+                let _ = sol_record(out, "fix", sol.as_reference(), &built.vars);
+                "sat"
+            }
+            SatisfactionResult::Unsatisfiable => {
+                out.push("verdict fix unsat");
+                "unsat"
+            }
             SatisfactionResult::Unknown => "unknown",
         };
         out.meta(format!("fix solve {} -> {}", k, verdict));
